@@ -110,7 +110,8 @@ example : rldecode (rlEnc [.run 3 7, .lit [1, 2, 128], .run 128 0] true)
 /-- ASCIIHex: any mix of upper/lower-case digits, any white space between digits, with `>`,
 without EOD marker, or with `>` after an odd number of digits (final `0` left out). -/
 theorem ahx_rt (cs : List Nat) (tail : Nat) (x : Bytes) : asciihexdecode (ahxEnc cs tail x) = .ok x := by
-  unfold asciihexdecode ahxEnc
+  rw [asciihexdecode_lit]
+  unfold ahxEnc
   have hno := ahxDigits_no_gt cs (tail == 2) x
   by_cases h1 : tail = 1
   · subst h1
@@ -603,11 +604,7 @@ theorem a85_ahx_translated (data : Bytes) :
        let t := d.takeWhile (fun b => [b] != AHX_EOD)
        if t.length < d.length then unhexlify (if ahxNeedsPad t.length then t ++ AHX_PAD else t)
        else unhexlify d) := by
-  refine ⟨by decide, by decide, by decide, rfl, ?_⟩
-  have hf : (fun b : UInt8 => [b] != AHX_EOD) = (fun b => b != 62) := by
-    funext b; by_cases hb : b = 62 <;> simp [AHX_EOD, bne, hb]
-  simp only [asciihexdecode, hf, ahxNeedsPad, AHX_PAD]
-  by_cases h : (List.takeWhile (fun b => b != 62) (List.filter (fun b => !isWs b) data)).length % 2 = 1 <;> simp [h]
+  exact ⟨by decide, by decide, by decide, rfl, rfl⟩
 
 example : ahxNeedsPad 3 = true ∧ ahxNeedsPad 4 = false := by decide
 example : asciihexdecode [52, 32, 49, 55, 62, 55] = .ok [0x41, 0x70] := by decide
